@@ -1305,6 +1305,7 @@ static void do_unrelated(life_t *lp, int nscalar)
 {
     vnacal_new_t *vnp;
     double f2[2] = { 0.5e9, 7e9 };
+    double fsh[MAXF];
     const double *fv = f2;
     int nf = 2;
     const double complex ed = 0.05 + 0.02 * I, er = 0.9 - 0.1 * I,
@@ -1325,7 +1326,13 @@ static void do_unrelated(life_t *lp, int nscalar)
 	    if (lp->kit[d].kind == 'V' || lp->kit[d].kind == 'X')
 		shared = d;
 	if (shared >= 0) {
-	    fv = lp->freq;
+	    /* frequencies between the knots of the shared parameter up to
+	     * the top of the band: the library has to interpolate it (what
+	     * it gets is its own business -- this calibration is not the
+	     * one under test) and is left looking at the top of the band */
+	    for (int f = 0; f < lp->nf; ++f)
+		fsh[f] = lp->freq[f] + 0.2e9;
+	    fv = fsh;
 	    nf = lp->nf;
 	}
     }
@@ -1344,9 +1351,7 @@ static void do_unrelated(life_t *lp, int nscalar)
 	    if (nscalar > 0)
 		g = kdisc(key6(g_seed, g_case_key, 0x0E1, (uint64_t)i, 0, 0), 0.95);
 	    else if (i == 2 && shared >= 0)
-		g = sval(lp->kit[shared].sid, lp->kit[shared].a0,
-			lp->kit[shared].b0, lp->kit[shared].kind,
-			lp->fref[f], 0.0);
+		g = kdisc(key6(g_seed, g_case_key, 0x0E2, (uint64_t)f, 0, 0), 0.9);
 	    else
 		g = g3[i];
 	    mv[f] = ed + er * g / (1.0 - em * g);
